@@ -45,6 +45,16 @@ Theorem C19_generated_total : forall fmt_ok idf cf defs root root_name p,
 Proof. exact generated_never_panics. Qed.
 Print Assumptions C19_generated_total.
 
+(* the names part of the residue is itself a theorem: identifiers that are non-empty and free of underscores (IdentP / NamesP: every
+   identifier built from a name inside the character guard) give a struct with distinct non-empty field names *)
+Theorem C19_residue_names : forall idf defs rec c self scope props infos,
+  Forall NamesP.no_us (map (fun kp : str * schema => idf (fst kp)) (sort_props props)) ->
+  Forall (fun s : str => s <> []) (map (fun kp : str * schema => idf (fst kp)) (sort_props props)) ->
+  rmap (gen_field defs rec c self scope) (prop_names idf props) = Done infos ->
+  names_ok (map (fun i : finfo => fst (fst i)) infos) = true.
+Proof. exact struct_names_ok. Qed.
+Print Assumptions C19_residue_names.
+
 (* non-vacuity: the type generated for a schema with required, defaulted, constrained and nested properties is well formed *)
 Definition wf_schema : schema :=
   Sch (mkC [SObject] None None [[97]%N] 0 0 0 0 None None (mkBounds None None None None) None None)
